@@ -410,6 +410,17 @@ class AM:
         else:
             r = attempt(f, self.a, mk('Bits', v))
             require(not is_raised(r) and r.data.bin == ''.join(exp), 'bitwise operator differs from the per-item result', got=r if is_raised(r) else r.data.bin[:80], expected=''.join(exp)[:80])
+            # promotable right operands and the reflected form (left operand a str / bytes, which do not define the operator themselves)
+            before = self.a.data.bin
+            others = ['0b' + v] + ([bytes(int(v[i:i + 8], 2) for i in range(0, self.w, 8))] if self.w % 8 == 0 else [])
+            for o in others:
+                r2 = attempt(f, self.a, o)
+                require(not is_raised(r2) and r2.data.bin == ''.join(exp), 'bitwise operator with a promotable right operand differs from the per-item result', got=r2 if is_raised(r2) else r2.data.bin[:80],
+                        expected=''.join(exp)[:80], operand=type(o).__name__)
+                r3 = attempt(f, o, self.a)
+                require(not is_raised(r3) and r3.data.bin == ''.join(exp) and str(r3.dtype) == str(self.a.dtype), 'reflected bitwise operator (scalar op Array) differs from the per-item result',
+                        got=r3 if is_raised(r3) else r3.data.bin[:80], expected=''.join(exp)[:80], operand=type(o).__name__)
+            require(self.a.data.bin == before, 'a non-in-place bitwise operator modified the Array')
         bad = attempt(f, self.a, mk('Bits', v + '1'))
         require(is_raised(bad, ValueError), 'bitwise operator with a wrongly sized operand must raise ValueError', got=bad)
 
